@@ -10,6 +10,8 @@ COMMON_TRUSTED = [
 
 PROPS = {}
 
+ALL_IDS = ["C%02d" % i for i in range(1, 21)]
+
 PROPS["C10"] = dict(
     props_file="Properties/C10.v",
     harnesses=[dict(cmd="refcache", mod="root", model="Model.Refcache", quick=800, thorough=40000, shard=800,
@@ -23,5 +25,15 @@ PROPS["C10"] = dict(
         "groupcache/lru is modelled (PushFront/MoveToFront/RemoveOldest); its code is exercised by the correspondence check only",
         "time.AfterFunc timers: the timer body is the Expire op, fired at arbitrary points of the history by the harness hook VerifExpire",
     ],
+    level_text="Coq theorems over every history of Add/Get/Remove/Expire/Release on the refcounted-cache model (invariant by induction over "
+               "fold_left step): callback count per value <= 1 and = 1 iff the value left the cache and no holder remains; never while held; double release; "
+               "add-existing; re-add while old value held. The model is run against util/cacheutil on random histories every run.",
+    level_note="Model (coq/Model/Refcache.v) is hand-written; cache methods are atomic under the cache mutex so interleavings are op lists; "
+               "groupcache/lru, sync.Once, time.AfterFunc are modelled by contract; Go-level data races are outside the model.",
+    technique="Coq proof: invariant preserved by every op, lifted to all reachable states; correspondence by vm_compute on observed histories",
     trusted=["util/cacheutil is modelled by hand in coq/Model/Refcache.v; tie = per-op outputs (returned value identity, added/ok, OnEvicted calls)"],
 )
+
+# properties not (yet) claimed: filled in at the bottom so that MANIFEST.json is always valid
+NOT_APPLICABLE = [dict(property_id=i, reason="not yet covered by a check in this revision of /verif (work in progress; see DESIGN.md)")
+                  for i in ALL_IDS if i not in PROPS]
